@@ -41,7 +41,7 @@ variable (po : POps) (pt pt' : Text → Res Term) (hpt : ∀ x, (pt x).le (pt' x
 include hpt
 
 theorem listStep_le (c : Char) (esc : Bool) (st : ListSt) : (listStep po pt c esc st).le (listStep po pt' c esc st) := by
-  unfold listStep listComma; mono
+  unfold listStep listStepTop listComma; mono
 
 theorem listFinish_le (st : ListSt) : (listFinish pt st).le (listFinish pt' st) := by
   unfold listFinish; mono
